@@ -151,7 +151,7 @@ def run(ctx: Ctx):
     if not os.path.exists(os.path.join(ROOT, "lean", ".lake", "build", "bin", "isladrv")):
         return "infra"
     quick = ctx.tier == "quick"
-    n = 110 if quick else 2500
+    n = 110 if quick else 1200
     problems = []
     for pb in corpus_problems():
         pb = dict(pb)
@@ -164,7 +164,7 @@ def run(ctx: Ctx):
         pb["calls"] = 5
         problems.append(pb)
     batch = []
-    soft_deadline = ctx.t0 + (150 if quick else 5400)
+    soft_deadline = ctx.t0 + (150 if quick else 2400)
     for pb, res in solverun.run_all(problems, wall_limit=45.0, deadline=soft_deadline):
         summarize(ctx, pb, res)
         batch.append((pb, res))
